@@ -398,3 +398,13 @@ def u_row_order(ctx):
         return mx == my
     ctx.check("C13/row_order/max", both(npshim.amax))
     ctx.check("C13/row_order/min", both(npshim.amin))
+
+
+# additivity under a split: which patch pairs are counted must not depend on which catalogs take part beyond what the link angle
+# needs - the link angle is the largest angle the counting uses, converted with the cosmology of the configuration (C01 unit)
+def _register_shared_round10():
+    from . import C01 as _C01
+    unit(P, "get_max_angle", fuc=["yaw.correlation.measurements:get_max_angle"])(_C01.u_max_angle)
+
+
+# _register_shared_round10() is called by the driver after this module is fully imported (no import cycles)
